@@ -1,6 +1,7 @@
 #!/usr/bin/env bash
 # Re-runs every seeded change against the quick tier of its property's check, in a scratch
 # worktree (never /repo), and prints one line per change. Usage: tools/seeded_matrix.sh [worktree]
+#   SEEDED_ONLY=<regex> restricts the run to the matching ids.
 #   (the worktree is created at /repo's HEAD if it does not exist, and removed at the end)
 set -u
 wt="${1:-/tmp/wt-matrix}"
@@ -10,6 +11,7 @@ if [ ! -d "$wt" ]; then git -C /repo worktree add --detach "$wt" HEAD -q && made
 for d in /verif/seeded/*/; do
   id=$(basename "$d")
   [ -f "$d/meta.json" ] || continue
+  if [ -n "${SEEDED_ONLY:-}" ] && ! echo "$id" | grep -Eq "$SEEDED_ONLY"; then continue; fi
   prop=$(python3 -c "import json;print(json.load(open('$d/meta.json'))['property'])")
   (cd "$wt" && git checkout -q -- . && git clean -fdq)
   if ! (cd "$wt" && git apply "$d/patch.diff" 2>/dev/null); then echo "$id $prop PATCH-DOES-NOT-APPLY"; continue; fi
